@@ -72,6 +72,8 @@ def main(argv=None):
     # ------------------------------------------------------------------ PVC (deductive)
     classes = [c for c in C.REGISTRY if prop in c.props]
     tmo = 10000 if tier == "quick" else 60000
+    if tier == "thorough":
+        os.environ["VF_CROSSCHECK"] = "1"
     results = [] if args.no_pvc else C.run_contracts(classes, timeout_ms=tmo)
     ob_total = 0
     ob_proved = 0
@@ -217,6 +219,7 @@ def main(argv=None):
         "by_backend": by_backend,
         "solver_time_s": round(solver_time, 3),
         "vacuity_checks": sum(1 for r in results if r.get("covered")),
+        "crosscheck_cvc5": {k: sum(r.get("crosscheck", {}).get(k, 0) for r in results) for k in sorted({kk for r in results for kk in r.get("crosscheck", {})})},
         "undecided": undecided[:50],
         "known_findings": open_findings,
         "bounded": bounded,
